@@ -37,13 +37,16 @@ value = st.one_of(
 
 @st.composite
 def case(draw):
-    fam = draw(st.sampled_from(["plain", "plain", "plain", "temp", "temp", "angle", "em", "custom", "custom"]))
+    fam = draw(st.sampled_from(["plain", "plain", "plain", "temp", "temp", "angle", "em", "custom", "custom", "dimless"]))
     c = {"fam": fam, "custom": None}
     if fam == "plain":
         a = draw(G.unit_ast(max_factors=3, mild=True, coeff=draw(st.integers(0, 5)) == 0))
         b = G.map_atoms(a, lambda n: G.partner_of(draw, n, mild=True))
         cc = G.map_atoms(a, lambda n: G.partner_of(draw, n, mild=True))
         c["units"] = [R.render(a), R.render(b, draw(st.integers(0, 1))), R.render(cc)]
+    elif fam == "dimless":
+        pool = ["", "dimensionless", "percent", "%", "km/m", "cm/m", "mmol", "mol", "g/kg", "Msun/g", "1", "ppm" if False else "percent", "min/s", "rad/degree" if False else "km/cm"]
+        c["units"] = [draw(st.sampled_from(pool)) for _ in range(3)]
     elif fam == "temp":
         c["units"] = [draw(st.sampled_from(TEMP_NAMES)) for _ in range(3)]
     elif fam == "angle":
@@ -184,7 +187,7 @@ def judge(case, part):
     zsi = _zmag(A) + _zmag(B) + _zmag(C)
     has_offset = zsi > 0
     distinct = len({an, bn, cn}) == 3 and not (A == B or B == C or A == C)
-    if distinct and (has_offset or fam in ("em", "plain", "custom")):
+    if distinct and (has_offset or fam in ("em", "plain", "custom", "dimless")):
         part.nt((fam, tuple(sorted(T.dim_name(R.dimvec_of(A.dimensions)).split())), an if fam != "plain" else "", bn if fam != "plain" else "", cn if fam != "plain" else "", case["dtype"], R.n_atoms(("u", an)) if fam != "plain" else len(an)))
     part.count(f"family {fam}")
     part.count(f"dtype {case['dtype']}")
@@ -209,10 +212,14 @@ def judge(case, part):
     # ---- routes A -> B
     def routes(q, U, Uname):
         res = {}
-        res["to"] = _try(lambda: q.to(U))
-        res["in_units"] = _try(lambda: q.in_units(Uname if Uname != "SI" and reg is None else U))
-        res["to_value"] = _try(lambda: q.to_value(U))
-        res["convert_to_units"] = _try(lambda: (lambda y: (y.convert_to_units(U), y)[1])(q.copy()))
+        # the request is spelled the way users spell it -- as a string -- whenever the default registry is in play
+        # (the Unit-object spelling is exercised by the custom-registry family and by `by_hand`)
+        tgt = Uname if (Uname != "SI" and reg is None) else U
+        res["to"] = _try(lambda: q.to(tgt))
+        res["in_units"] = _try(lambda: q.in_units(tgt))
+        res["to_value"] = _try(lambda: q.to_value(tgt))
+        res["convert_to_units"] = _try(lambda: (lambda y: (y.convert_to_units(tgt), y)[1])(q.copy()))
+        res["to(Unit object)"] = _try(lambda: q.to(U))
         if fam != "em":
             def by_hand():
                 f, off = q.units.get_conversion_factor(U, q.dtype)
@@ -272,7 +279,12 @@ def judge(case, part):
             p, b = name[0], name[1:]
             f = {"k": Fr(1000), "m": Fr(1, 1000), "u": Fr(1, 10**6)}[p]
             s, z, _ = model[b]
-            return s * f, z, s == 1  # prefixed-offset convention only pinned by the library for unit scale
+            if case["custom"]["dim"] == "angle":
+                # the documented rule SI = scale * (value - offset) applies to the prefixed unit as a whole
+                return s * f, z * f, True
+            # temperature: the library keeps the zero point of the unprefixed scale (mdegC: K = 0.001*v + 273.15);
+            # that convention is only pinned for unit scale
+            return s * f, z, s == 1
         (sa, za, oka), (sb, zb, okb) = aff(an), aff(bn)
         if oka and okb and x.dtype.kind == "f":
             want = [float((sa * Fr(float(v)) + za - zb) / sb) for v in np.atleast_1d(np.asarray(x))]
@@ -299,6 +311,10 @@ def judge(case, part):
             continue
         if s1 == "err":
             part.count(f"{nm} refused")
+            continue
+        if eps > 1e-10 and not (np.all(np.isfinite(np.asarray(r1))) and np.all(np.isfinite(np.asarray(r2)))
+                                 and np.all((np.asarray(r1) != 0) == (np.asarray(x) != 0))):
+            part.count("excluded_range (32-bit data: base-unit factor over/underflows float32)")
             continue
         got[nm] = r1
         e2 = max(eps, _feps(r1), _feps(r2))
